@@ -39,13 +39,16 @@ Broken == 9                       \* index of the 'broken-runner' pseudo test of
 Id(w, i) == 100 * w + 10 * i
 
 VARIABLES
-    script,      \* frozen: sequence (per sub-suite/worker) of [tests: Seq(outcome name), raises: no | exc | base]
+    script,      \* frozen: sequence (per sub-suite/worker) of [tests: Seq(outcome name | "timed"), raises: no | exc | base,
+                 \*   tfault: 0 or i: the caller's result raises at startTest of this worker's i-th test];
+                 \*   "timed" = a test reported with explicit times id+1 / id+2 and the worker's own tag, with a pause
+                 \*   between its startTest and its outcome (so that tests of different workers OVERLAP)
     makeFault,   \* frozen: NoFault or k: the make_tests iterator raises after yielding k sub-suites
     intrAt,      \* frozen: NoFault or j: the j-th (0-based) queue.get() call raises KeyboardInterrupt
     mpc,         \* main: [pc, w]  pc \in begin spawn get join sacq scall srel returned raised
     cause,       \* why run() is aborting: none | make | ki
     propagated,  \* the exception that left run(): none | make | ki
-    wpc,         \* per worker: new ready acq call rel put exit done
+    wpc,         \* per worker: new ready mid acq call rel put exit done
     wi,          \* per worker: index of the test being reported (Broken = the broken-runner holder)
     wk,          \* per worker: next call of the block
     sem,         \* Free or the holder (Main or worker)
@@ -170,11 +173,14 @@ MStopRel ==
 (* workers                                                                  *)
 
 \* what worker w does after finishing item i-1: report test i, report the broken runner, or finish
+Timed(w, i) == i # Broken /\ script[w].tests[i] = "timed"
 NextOf(w, i) ==
     LET s == script[w] IN
-    IF i <= Len(s.tests) THEN <<"acq", i>>
+    IF i <= Len(s.tests) THEN (IF s.tests[i] = "timed" THEN <<"mid", i>> ELSE <<"acq", i>>)
     ELSE IF s.raises = "exc" /\ i # Broken + 1 THEN <<"acq", Broken>>
     ELSE <<"put", 0>>
+\* the block of test i has ended: the target raised in it (run() dies with that exception => broken runner), or on
+NextAfter(w, i) == IF i # Broken /\ script[w].tfault = i THEN <<"acq", Broken>> ELSE NextOf(w, i + 1)
 
 Goto(w, nx) == /\ wpc' = [wpc EXCEPT ![w] = nx[1]]
                /\ wi' = [wi EXCEPT ![w] = nx[2]]
@@ -187,6 +193,15 @@ WStart(w) ==
                    abortAlive, ngets>>
     /\ Log(w, "begin", NoEntry)
 
+\* a timed test: time(start), startTest, tags(own) have been given to the worker's own result; now time(end) and
+\* the outcome follow
+WLocal(w) ==
+    /\ wpc[w] = "mid"
+    /\ wpc' = [wpc EXCEPT ![w] = "acq"]
+    /\ UNCHANGED <<script, makeFault, intrAt, mpc, cause, propagated, wi, wk, sem, queue, threads, clog, runBy, told,
+                   abortAlive, ngets>>
+    /\ Log(w, "local", NoEntry)
+
 WAcquire(w) ==
     /\ wpc[w] = "acq" /\ sem = Free
     /\ sem' = w
@@ -196,15 +211,29 @@ WAcquire(w) ==
                    abortAlive, ngets>>
     /\ Log(w, "acquire", NoEntry)
 
-OutcomeOf(w, i) == IF i = Broken THEN "addError" ELSE script[w].tests[i]
+OutcomeOf(w, i) == IF i = Broken THEN "addError" ELSE IF script[w].tests[i] = "timed" THEN "addSuccess" ELSE script[w].tests[i]
+TimedCalls == <<"time", "startTest", "time", "tags", "outcome", "stopTest">>
+CallsOf(w, i) == IF Timed(w, i) THEN TimedCalls ELSE Calls
+\* The worker's result keeps the last explicit time it was given (TestResult.time): a test reported without times
+\* - and the broken-runner holder - starts and ends at the end time of the last timed test the sub-suite reported
+\* before it (0: none, the real clock).
+RanUpTo(w) == IF script[w].tfault # 0 THEN script[w].tfault ELSE Len(script[w].tests)
+RECURSIVE LastExp(_, _)
+LastExp(w, j) == IF j = 0 THEN 0 ELSE IF script[w].tests[j] = "timed" THEN Id(w, j) + 2 ELSE LastExp(w, j - 1)
+TimeOf(w, i, k) == IF Timed(w, i) THEN (IF k = 1 THEN Id(w, i) + 1 ELSE Id(w, i) + 2)
+                   ELSE IF i = Broken THEN LastExp(w, RanUpTo(w)) ELSE LastExp(w, i - 1)
 CallEntry(w, i, k, h) ==
-    LET c == Calls[k] IN
-    Entry(w, IF c = "outcome" THEN OutcomeOf(w, i) ELSE c, IF c = "time" THEN 0 ELSE Id(w, i), h)
+    LET c == CallsOf(w, i)[k] IN
+    Entry(w, IF c = "outcome" THEN OutcomeOf(w, i) ELSE c,
+          IF c = "time" THEN TimeOf(w, i, k) ELSE IF c = "tags" THEN w ELSE Id(w, i), h)
+\* the caller's result raises at this call (startTest of the scripted test)
+FaultAt(w, i, k) == i # Broken /\ script[w].tfault = i /\ CallsOf(w, i)[k] = "startTest"
 
 WCall(w) ==
     /\ wpc[w] = "call"
     /\ clog' = Append(clog, CallEntry(w, wi[w], wk[w], sem))
-    /\ IF wk[w] = Len(Calls)
+    \* a raise before the outcome skips the rest of the block; the semaphore is released all the same
+    /\ IF wk[w] = Len(CallsOf(w, wi[w])) \/ FaultAt(w, wi[w], wk[w])
        THEN wpc' = [wpc EXCEPT ![w] = "rel"] /\ UNCHANGED wk
        ELSE wk' = [wk EXCEPT ![w] = @ + 1] /\ UNCHANGED wpc
     /\ UNCHANGED <<script, makeFault, intrAt, mpc, cause, propagated, wi, sem, queue, threads, runBy, told,
@@ -214,7 +243,7 @@ WCall(w) ==
 WRelease(w) ==
     /\ wpc[w] = "rel"
     /\ sem' = Free
-    /\ Goto(w, NextOf(w, wi[w] + 1))
+    /\ Goto(w, NextAfter(w, wi[w]))
     /\ UNCHANGED <<script, makeFault, intrAt, mpc, cause, propagated, wk, queue, threads, clog, runBy, told,
                    abortAlive, ngets>>
     /\ Log(w, "release", NoEntry)
@@ -235,6 +264,7 @@ WExit(w) ==
     /\ Log(w, "exit", NoEntry)
 
 DoWStart   == \E w \in Workers : WStart(w)
+DoWLocal   == \E w \in Workers : WLocal(w)
 DoWAcquire == \E w \in Workers : WAcquire(w)
 DoWCall    == \E w \in Workers : WCall(w)
 DoWRelease == \E w \in Workers : WRelease(w)
@@ -242,13 +272,13 @@ DoWPut     == \E w \in Workers : WPut(w)
 DoWExit    == \E w \in Workers : WExit(w)
 
 MainStep == MBegin \/ MSpawn \/ MGet \/ MJoin \/ MStopAcq \/ MStopCall \/ MStopRel
-WorkerStep(w) == WStart(w) \/ WAcquire(w) \/ WCall(w) \/ WRelease(w) \/ WPut(w) \/ WExit(w)
+WorkerStep(w) == WStart(w) \/ WLocal(w) \/ WAcquire(w) \/ WCall(w) \/ WRelease(w) \/ WPut(w) \/ WExit(w)
 
 Terminal == mpc.pc \in {"returned", "raised"} /\ Alive(wpc) = {}
 Done == Terminal /\ UNCHANGED vars
 
 Next == MBegin \/ MSpawn \/ MGet \/ MJoin \/ MStopAcq \/ MStopCall \/ MStopRel
-        \/ DoWStart \/ DoWAcquire \/ DoWCall \/ DoWRelease \/ DoWPut \/ DoWExit \/ Done
+        \/ DoWStart \/ DoWLocal \/ DoWAcquire \/ DoWCall \/ DoWRelease \/ DoWPut \/ DoWExit \/ Done
 
 Fairness == WF_vars(MainStep) /\ \A w \in 1..4 : WF_vars(w \in Workers /\ WorkerStep(w))
 
@@ -266,9 +296,13 @@ ReturnsAfterAll == mpc.pc = "returned" => Alive(wpc) = {} /\ \A w \in Workers : 
 
 \* what worker w is scripted to report, as calls on the caller's result
 RECURSIVE BlocksFrom(_, _)
-BlockOf(w, i) == [k \in DOMAIN Calls |-> LET e == CallEntry(w, i, k, 0) IN <<e.call, e.v>>]
+BlockOf(w, i) == [k \in DOMAIN CallsOf(w, i) |-> LET e == CallEntry(w, i, k, 0) IN <<e.call, e.v>>]
 BlocksFrom(w, i) ==
-    IF i <= Len(script[w].tests) THEN BlockOf(w, i) \o BlocksFrom(w, i + 1)
+    IF i <= Len(script[w].tests)
+    THEN IF script[w].tfault = i
+         \* the caller's result raised at startTest: the block stops there, run() is over, the runner is broken
+         THEN SubSeq(BlockOf(w, i), 1, 2) \o BlockOf(w, Broken)
+         ELSE BlockOf(w, i) \o BlocksFrom(w, i + 1)
     ELSE IF script[w].raises = "exc" THEN BlockOf(w, Broken) ELSE <<>>
 Emitted(w) == BlocksFrom(w, 1)
 Seen(w) == LET s == SelectSeq(clog, LAMBDA e : e.thr = w) IN [j \in DOMAIN s |-> <<s[j].call, s[j].v>>]
@@ -279,7 +313,9 @@ EventsOnceInOrder ==
                        /\ wpc[w] = "done" => Seen(w) = Emitted(w)
 
 \* the caller's result sees one test at a time, every call made under the semaphore
-About(e) == IF e.call \in {"time", "stop"} THEN 0 ELSE e.v
+About(e) == IF e.call \in {"time", "tags", "stop"} THEN 0 ELSE e.v
+FaultedStart(e) == e.call = "startTest" /\ e.thr \in Workers /\ script[e.thr].tfault # 0
+                   /\ e.v = Id(e.thr, script[e.thr].tfault)
 OneAtATime ==
     /\ \A j \in DOMAIN clog : clog[j].h = clog[j].thr
     /\ \A i, k \in DOMAIN clog :
@@ -288,11 +324,24 @@ OneAtATime ==
     \* a block is opened by its time/startTest pair and closed by stopTest before another thread's call
     /\ \A j \in DOMAIN clog : (clog[j].call = "startTest") =>
           /\ j > 1 /\ clog[j - 1].call = "time" /\ clog[j - 1].thr = clog[j].thr
-    /\ \A j \in DOMAIN clog : (j > 1 /\ clog[j].thr # clog[j - 1].thr) => clog[j - 1].call \in {"stopTest", "stop"}
+    /\ \A j \in DOMAIN clog : (j > 1 /\ clog[j].thr # clog[j - 1].thr) =>
+          (clog[j - 1].call \in {"stopTest", "stop"} \/ FaultedStart(clog[j - 1]))
 
-\* a sub-suite whose run() raises (an Exception) is reported as an errored 'broken-runner' test
+\* each worker reports through a result of its OWN: the block of a test carries that worker's own start and end
+\* time and that worker's own tags - also when tests of different workers overlap (one worker's startTest between
+\* another's startTest and its outcome)
+OwnBlock ==
+    /\ \A j \in DOMAIN clog : (clog[j].call = "time" /\ clog[j].v # 0) => clog[j].v \div 100 = clog[j].thr
+    /\ \A j \in DOMAIN clog : clog[j].call = "tags" => clog[j].v = clog[j].thr
+    /\ \A j \in DOMAIN clog :
+          (clog[j].call = "startTest" /\ clog[j].thr \in Workers /\ clog[j].v # Id(clog[j].thr, Broken)
+             /\ Timed(clog[j].thr, (clog[j].v % 100) \div 10)) =>
+              /\ j > 1 /\ clog[j - 1].call = "time" /\ clog[j - 1].v = clog[j].v + 1
+              /\ j < Len(clog) => (FaultedStart(clog[j]) \/ (clog[j + 1].call = "time" /\ clog[j + 1].v = clog[j].v + 2))
+
+\* a sub-suite whose run() raises (an Exception - its own, or the caller's result raising inside it) is reported as an errored 'broken-runner' test
 BrokenReported ==
-    \A w \in Workers : (script[w].raises = "exc" /\ wpc[w] = "done") =>
+    \A w \in Workers : ((script[w].raises = "exc" \/ script[w].tfault # 0) /\ wpc[w] = "done") =>
         \E j \in DOMAIN clog : clog[j].thr = w /\ clog[j].v = Id(w, Broken) /\ clog[j].call = "addError"
 
 \* abort: every worker alive when the exception arrived has been told to stop, the exception propagates
